@@ -6,6 +6,9 @@ Nothing here imports lena. A variable is described by a JSON-able *spec*:
     ["Compose", [spec, ...], kw]   composition, kw = keyword arguments (name and extra attributes)
     ["Combine", [spec, ...], kw]   tuple variable, kw may hold name, type and extra attributes
     ["N", i, p]                    plain variable number i with a numeric getter x -> a_i * x + b_i
+    ["P", i, p]                    plain variable number i with a PARTIAL getter: x -> (i, x) for all data
+                                   except the data outside_domain(i) (however deep the earlier getters of
+                                   a chain have wrapped them), for which it raises
     ["Abs", spec, kw]              lena.variables.abs(variable of spec, **kw), kw holds latex_name and
                                    may hold name
 
@@ -25,6 +28,9 @@ The model is written from the docstrings of lena/variables/variable.py and the p
     is the absolute value of var's data, named "abs_" + var.name unless a name is given, with the given
     latex_name; it is a variable "of the same kind" (type and other attributes of var), so inside a chain
     it stands where var would stand, described by its own name and attributes;
+  * a variable is a function of the value it is given: what it gives for x does not depend on the values
+    it was applied to before, in particular not on values outside the domain of one of its getters (the
+    getter raised, the caller caught the exception and went on with the next value);
   * a value is a (data, context) pair exactly when it is a tuple (or an instance of a subclass of tuple)
     of length 2 whose second item is a dictionary (or an instance of a subclass of dict) - the
     convention of lena.flow.get_data_context; every other value is data without context.
@@ -43,7 +49,16 @@ PROFILES = (
     {"opt": {"k": [1, {"z": None}]}, "flag": False},
     {"unit": "cm"},
     {"unit": "m", "latex_name": "x_m", "range": [0, 1]},
+    # attributes named like the methods and markers that lena.core looks up on the elements of a sequence
+    # (adapters.Run / FillCompute / FillRequest / FillInto, check_sequence_type, LenaSequence, Split);
+    # the values are data (never callable): truthy, falsy, and the private marker names
+    {"run": 1234, "fill": "f", "compute": [1], "request": {"n": 1}, "fill_into": 2.5, "reset": True},
+    {"run": 0, "fill": "", "compute": None, "request": [], "fill_into": False, "reset": {}},
+    {"_has_no_data": 1, "_get_context": "g", "_set_context": [0], "_repr_nested": 0,
+     "_can_break_flow": True},
 )
+FUNCTION_PROFILES = 5            # the profiles of the group functions (and of everything older)
+NAME_PROFILES = (5, 6, 7)        # the profiles of the group attribute-names
 
 # numeric getters x -> a * x + b of the "N" leaves: they do not commute and change the sign of 7
 AFFINE = ((-2, 3), (3, -40), (-1, -5), (2, -9), (5, 1))
@@ -67,7 +82,26 @@ def data_value(kind):
         return (DATA, {"inner": [1]})
     if kind == "dict":
         return {"variable": {"name": "d", "type": "td", "td": {"name": "d"}}, "k": [0]}
+    if kind == "other-int":
+        return DATA + 1
+    if kind.startswith(OUTSIDE):
+        return kind                 # the marker itself: data outside the domain of one "P" getter
     raise ValueError(kind)
+
+
+OUTSIDE = "outside-domain-of-"
+
+
+def outside_domain(i):
+    """Kind (and value) of the data for which the getter of the partial variable number i raises."""
+    return OUTSIDE + str(i)
+
+
+def innermost(x):
+    """The data the first getter of a chain was given, seen through the pairs (i, x) of the getters."""
+    while type(x) is tuple and len(x) == 2 and type(x[0]) is int:
+        x = x[1]
+    return x
 
 VALUE_FORMS = ("bare", "empty", "plain", "untyped-variable", "typed-variable", "composed-variable",
                "empty-variable",
@@ -193,6 +227,9 @@ def match(actual, req, path=(), exact=False):
 
 # -- descriptions --------------------------------------------------------------------------------
 
+LEAF_KINDS = ("V", "N", "P")
+
+
 def leaf_fields(spec):
     _, i, p = spec
     return NAMES[i], TYPES[i], copy.deepcopy(PROFILES[p])
@@ -200,7 +237,7 @@ def leaf_fields(spec):
 
 def children(spec):
     kind = spec[0]
-    if kind in ("V", "N"):
+    if kind in LEAF_KINDS:
         return []
     if kind == "Abs":
         return [spec[1]]
@@ -210,7 +247,7 @@ def children(spec):
 def skeleton(spec):
     """Shape of a spec without numbers and profiles: "Abs[latex_name](Compose(N,N))"."""
     kind = spec[0]
-    if kind in ("V", "N"):
+    if kind in LEAF_KINDS:
         return kind
     kw = spec[2] if len(spec) > 2 and spec[2] else {}
     return "%s%s(%s)" % (kind, "[%s]" % ",".join(sorted(kw)) if kw else "",
@@ -246,7 +283,7 @@ def _retyped(d, name, top):
 def describe(spec):
     """{"name", "type" (or None), "top": attributes required at top level, "chain": [(type, Sub)]}"""
     kind = spec[0]
-    if kind in ("V", "N"):
+    if kind in LEAF_KINDS:
         name, typ, attrs = leaf_fields(spec)
         sub = dict(attrs)
         sub["name"] = name
@@ -317,7 +354,7 @@ def required_result(pre, descs):
 
 def getter(spec):
     kind = spec[0]
-    if kind == "V":
+    if kind in ("V", "P"):          # "P": on its domain (the model is never asked outside of it)
         i = spec[1]
         return lambda x: (i, x)
     if kind == "N":
@@ -357,6 +394,13 @@ def leaves(spec):
     if spec[0] == "Compose":
         return [l for s in spec[1] for l in leaves(s)]
     return [spec]
+
+
+def all_leaves(spec):
+    """Leaf specs of a spec in the order of their getters (through Compose, Combine and Abs)."""
+    if spec[0] in LEAF_KINDS:
+        return [spec]
+    return [l for s in children(spec) for l in all_leaves(s)]
 
 
 def chain_types(spec):
